@@ -26,7 +26,10 @@ THEOREMS = ["Wf.indexOf?_bound", "Wf.resolve_bounded", "Wf.resolveList_bounded",
             "Wf.check_filter_ok", "Wf.check_proj_ok", "Wf.check_order_ok", "Wf.check_hashagg_ok", "Wf.check_join_ok",
             "Wf.check_hashjoin_residual", "Wf.check_mergejoin_ok", "Wf.obligationsOk_ok", "Wf.check_apply", "Wf.schema_filter", "Wf.schema_order", "Wf.schema_limit",
             "Wf.schema_topn", "Wf.schema_proj", "Wf.schema_list", "Wf.applyProjOrder_schema", "Wf.wPlan_ok", "Wf.applyProjOrderOld_unsound",
-            "Wf.applyProjOrder_regression"]
+            "Wf.applyProjOrder_regression",
+            # expressions the evaluator can evaluate (no subquery form left in an operator's expressions)
+            "Wf.evalOk_of_mem", "Wf.evalOk_subquery", "Wf.evalOk_node", "Wf.verdict_ok_iff", "Wf.verdict_ok_node",
+            "Wf.wSub_builder_accepts", "Wf.wSub_not_evaluable", "Wf.wSub_verdict"]
 # Thm/C17Proj.lean: projection pushdown keeps accepted plans accepted (repaired applier, fix 5c889c5)
 THEOREMS_PROJ = ["Wf.Tm.beq_eq", "Wf.kept_resolves", "Wf.resolve_kept", "Wf.resolveList_kept", "Wf.applyProjOrder_keeps_ok",
                  "Wf.applyProjOrder_witness"]
@@ -155,6 +158,18 @@ def run(ck):
         if now != was:
             ck.report("model-source-changed:" + fn, "%s in src/%s is modelled by hand as %s and its text changed (was %d characters, is %d): the model is no longer shown to describe it" % (
                 fn, path, MODELLED_AS.get(key, "?"), len(was), len(now)), replay={"function": key, "was": was, "is": now, "model": MODELLED_AS.get(key)}, found_input=False)
+    # the evaluator has no arm for the subquery forms (model: `subqueryHead`): read from Evaluator::eval
+    try:
+        ev = fn_text(os.path.join(vlib.REPO, "src/executor/evaluator.rs"), "eval")
+        arms = set(re.findall(r"\b([A-Z][A-Za-z0-9]*)\s*(?:\(|\[|\|)", ev.split("match", 1)[1]))
+        evaluable_now = sorted(arms & {"Exists", "Max1Row", "Apply", "Scan", "Proj", "Filter", "Order", "Limit", "TopN", "Join", "HashJoin",
+                                       "MergeJoin", "Agg", "HashAgg", "SortAgg", "Window", "Values", "Empty"})
+        if evaluable_now or "can not evaluate expression" not in ev:
+            ck.report("model-source-changed:evaluator-arms", "Evaluator::eval now has an arm for %s (or lost its `can not evaluate expression` default): the model's `subqueryHead` no longer describes it" % evaluable_now,
+                      replay={"function": "executor/evaluator.rs:eval", "arms": sorted(arms), "model": "Wf.subqueryHead"}, found_input=False)
+        ck.coverage["evaluator_arms_read"] = len(arms)
+    except (ValueError, IndexError, OSError) as e:
+        ck.report("model-source-changed:evaluator-arms", "Evaluator::eval cannot be read (%s)" % e, replay={"function": "executor/evaluator.rs:eval"}, found_input=False)
     # `schema` of the plan checker is regenerated from rules/schema.rs analyze_schema
     rc, out = vlib.sh([sys.executable, os.path.join(vlib.VERIF, "translator/gen_schema.py"), vlib.REPO])
     ck.log(out.strip().split("\n")[-1][:160])
@@ -297,7 +312,7 @@ def run(ck):
                 if nb != no and nb > 0:
                     ck.report("plan:root-schema-changed", "optimization changed the number of output columns of `%s` from %d to %d" % (c["sql"], nb, no), replay=replay)
                 continue
-            if vo.startswith("runtime-todo"):
+            if vo.startswith("runtime-todo") and "not evaluable" not in vo:
                 # (no executor arm is `todo!()` since fix 7d07810; kept for a model that says so again)
                 ck.report("plan:runtime-todo:" + vlib.slug(vo)[:40], "the optimized plan of `%s` contains an operator whose executor is todo!() (%s)" % (c["sql"], vo), replay=replay)
                 continue
